@@ -88,7 +88,7 @@ class PbRoundTrip(Contract):
     prop = "C02"
     unroll = {"commonroad.common.util.make_valid_orientation": 3, "commonroad.common.util.make_valid_orientation_interval": 3}
     summaries = ("make_valid_orientation",)
-    budget_s = 600
+    budget_s = 1800
 
 
 for _cname in list(CONTENTS) + ["objects built with default arguments", "objects built with default arguments, incoming with id 0"]:
